@@ -6,6 +6,7 @@ import (
 	"os"
 	"strconv"
 	"strings"
+	"verif/tools/internal/ssax"
 
 	"golang.org/x/tools/go/ssa"
 
@@ -33,7 +34,17 @@ type e3Env struct {
 func (env *e3Env) unlistedFailures(e *absint.Engine) int {
 	n := 0
 	for _, o := range e.Obs {
-		if o.Bad > 0 && !env.resid[o.Rule+"|"+o.Fn+"|"+o.Expr] {
+		if o.Bad == 0 || env.resid[o.Rule+"|"+o.Fn+"|"+o.Expr] {
+			continue
+		}
+		listed := false
+		for k := range env.resid {
+			parts := strings.SplitN(k, "|", 3)
+			if len(parts) == 3 && parts[0] == o.Rule && parts[2] == o.Expr && residualScope != nil && residualScope(parts[1], o.Fn) {
+				listed = true
+			}
+		}
+		if !listed {
 			n++
 		}
 	}
@@ -72,6 +83,28 @@ func newE3Env(c *Ctx, r *core.Result) *e3Env {
 	}
 	if v, err := strconv.Atoi(os.Getenv("VERIF_K")); err == nil && v > 0 {
 		env.k = v // debugging
+	}
+	residualScope = func(listed, actual string) bool {
+		lf, af := c.P.FuncByQualName(listed), c.P.FuncByQualName(actual)
+		if lf == nil || af == nil || lf == af {
+			return false
+		}
+		level := map[*ssa.Function]bool{lf: true}
+		for depth := 0; depth < 2; depth++ {
+			next := map[*ssa.Function]bool{}
+			for f := range level {
+				for _, ci := range ssax.Calls(f) {
+					if h := ci.Common().StaticCallee(); h != nil && c.P.InModule(h) {
+						if h == af {
+							return true
+						}
+						next[h] = true
+					}
+				}
+			}
+			level = next
+		}
+		return false
 	}
 	env.resid = map[string]bool{}
 	for _, re := range loadResiduals(c, r) {
